@@ -339,7 +339,7 @@ def rules(draw):
         parts.append([key("COUNT"), scalar_or_list([draw(st.integers(1, 400))])])
     elif end == "until":
         k = draw(st.sampled_from(["date", "floating", "utc", "utc", "zoned"]))
-        y, m, d = draw(st.integers(1997, 2030)), draw(st.integers(1, 12)), draw(st.integers(1, 28))
+        y, m, d = draw(st.one_of(st.integers(1997, 2030), st.integers(1997, 2030), st.sampled_from([1, 9, 99, 999, 1000, 1601, 9999]))), draw(st.integers(1, 12)), draw(st.integers(1, 28))
         if k == "date":
             v = {"k": "date", "v": [y, m, d]}
         elif k == "zoned":
